@@ -13,7 +13,12 @@ VERSION_TYPE = {"paseto_v1": "core::V1", "paseto_v2": "core::V2", "paseto_v3": "
                 "paseto_v3_aws_lc": "core::V3", "paseto_v4": "core::V4", "paseto_v4_sodium": "core::V4"}
 
 def no_lc_inline(f):
-    return not (f["crate"] == "paseto_v3_aws_lc" and f["key"].startswith("lc::"))
+    if f["crate"] == "paseto_v3_aws_lc" and f["key"].startswith("lc::"):
+        return False
+    # key generation with a rejection-sampling loop: opaque primitive (its RNG discipline is C16's subject)
+    if f["key"].endswith("<impl core::SecretKey>::random"):
+        return False
+    return True
 
 def find_impl_fn(world, crate, trait_tail, method, arg_contains=None):
     """The fn implementing `method` of a trait (path ending in trait_tail) in `crate`."""
@@ -83,6 +88,29 @@ def core_fn(world, key_contains):
     cands = [f for k, f in c.fns.items() if key_contains in k and "{closure" not in k]
     return cands[0] if len(cands) == 1 else None
 
+def param_widths(world, fn):
+    """Static byte widths of parameters that are (references to) fixed-layout structs or byte arrays."""
+    out = {}
+    cr = fn["_crate"]
+    body = fn["body"]
+    for i in range(1, body["argc"] + 1):
+        l = body["locals"][i]
+        name = l.get("name")
+        if not name:
+            continue
+        ty = cr.ty(l["ty"])
+        if ty.get("k") in ("ref", "ptr"):
+            ty = cr.ty(ty["inner"])
+        if ty.get("k") == "array" and ty.get("len") is not None and cr.ty(ty["elem"])["s"] == "u8":
+            out[name] = ty["len"]
+        elif ty.get("k") == "adt":
+            lay = world.adt_layout(ty.get("crate"), ty["path"])
+            if lay and "size" in lay and "zerocopy" not in ty["path"]:
+                reprs = lay.get("repr", "")
+                if "C" in reprs or "transparent" in reprs:
+                    out[name] = lay["size"]
+    return out
+
 class Run:
     """All paths of one function evaluation plus convenience accessors."""
     def __init__(self, world, fn, args=None, subst=None, resolver=None, path=None):
@@ -90,7 +118,8 @@ class Run:
         self.fn = fn
         self.interp = Interp(world, inline_filter=no_lc_inline, resolver=resolver)
         self.results = self.interp.run(fn, args=args, subst=subst, path=path)
-        self.norm = Norm()
+        self.norm = Norm(param_widths(world, fn))
+        self.norm.input_widths.update(self.interp.in_widths)
 
     @property
     def ok_paths(self):
@@ -201,4 +230,72 @@ def compose_token(world, backend, purpose):
     dec = [e for e in r2.path.events if e["kind"] == "call" and e["name"].endswith("Payload>::decode")]
     out["decode_args"] = [unseal.norm.n(e["vals"][0]) for e in dec]
     out["result"] = unseal.norm.n(unseal.ret_value(r2))
+    return out
+
+PASERK_OPS = {
+    "pie": ("paserk::pie_wrap::<impl key::Key<V, K>>::wrap_pie", "paserk::pie_wrap::PieWrappedKey::<V, K>::unwrap", "with"),
+    "pbkw": ("paserk::pw_wrap::<impl key::Key<V, K>>::password_wrap_with_params", "paserk::pw_wrap::PasswordWrappedKey::<V, K>::unwrap", "pass"),
+    "pke": ("paserk::pke::<impl key::Key<V, version::Local>>::seal", "paserk::pke::SealedKey::<V>::unseal", "with"),
+}
+
+def exact_core_fn(world, key):
+    return world.crates["paseto_core"].fns.get(key)
+
+def compose_paserk(world, backend, op, unseal_key_arg=None):
+    """wrap / password-wrap / seal a key through paseto-core's generic code, then undo it on that very blob."""
+    crate = BACKENDS[backend]
+    res = make_resolver(world, crate, {})
+    sub = {"V": short(VERSION_TYPE[crate]), "K": "K"}
+    wk, uk, secret_name = PASERK_OPS[op]
+    f = exact_core_fn(world, wk)
+    g = exact_core_fn(world, uk)
+    out = {"backend": backend, "op": op, "problems": []}
+    if f is None or g is None:
+        out["problems"].append(f"anchor-missing: paseto_core {wk} / {uk}")
+        return out
+    wargs = None
+    if op == "pke":
+        # the recipient public key is the one derived from the secret key the blob is later unsealed with
+        fparams = f["body"]["locals"][1:1 + f["body"]["argc"]]
+        uk = find_impl_fn(world, crate, "::SealingVersion", "unsealing_key", "Public")
+        skfield = ("ptr", ("F", ("P", 2, "with"), 0))
+        pkterm = None
+        if backend != "v1" and uk is not None:
+            ru = Run(world, uk, args=[skfield], resolver=res)
+            rets = [x for x in ru.results if x.kind == "return"]
+            if len(rets) == 1:
+                pkterm = ru.interp.argval(rets[0].path, rets[0].ret)
+        if pkterm is None:
+            pkterm = ("agg", "adt:PkePublicKey::PkePublicKey", (("call", "RSA-public-key-of", (("field", ("field", ("init", ("P", 2, "with")), 0), 0),)),))
+        out["recipient_pk"] = pkterm
+        wargs = [("param", 1, "self"), ("ptr", ("T", ("agg", "adt:Key::Key", (pkterm,))))]
+    wrap = Run(world, f, args=wargs, subst=sub, resolver=res)
+    out["wrap"] = wrap
+    oks = wrap.ok_paths
+    bad_other = [r for r in wrap.other_paths if r.kind not in ("diverge",)]
+    if len(oks) != 1 or bad_other:
+        out["problems"].append(f"wrap: expected exactly one success path, got {len(oks)} (+{len(bad_other)} non-returning: {[ (r.kind, r.exit_site) for r in bad_other][:3]})")
+        if not oks:
+            return out
+    r = oks[0]
+    blob = wrap.interp.okv(None, r.path, r.ret)
+    out["blob"] = wrap.norm.n(wrap.interp.argval(r.path, blob))
+    # undo: (self=blob, secret)
+    gparams = g["body"]["locals"][1:1 + g["body"]["argc"]]
+    args = [blob]
+    for i, l in enumerate(gparams[1:], start=2):
+        nm = l.get("name", f"arg{i}")
+        args.append(unseal_key_arg if (unseal_key_arg is not None and i == 2) else ("ptr", ("P", i, nm)))
+    undo = Run(world, g, args=args, subst=sub, resolver=res, path=Path())
+    undo.norm.input_widths.update(wrap.norm.input_widths)
+    out["undo"] = undo
+    uoks = undo.ok_paths
+    if len(uoks) != 1:
+        out["problems"].append(f"unwrap∘wrap: expected exactly one success path, got {len(uoks)}")
+        if not uoks:
+            return out
+    r2 = uoks[0]
+    out["undo_path"] = r2
+    out["verifications"] = verification_terms(undo, r2)
+    out["result"] = undo.norm.n(undo.ret_value(r2))
     return out
